@@ -187,6 +187,9 @@ class Schema:
                     out.append(ml)
         return out
 
+    def select_direct_members(self, n):
+        return [m.lower() for m in self.typ(n)["members"]]
+
     # ---- legal complex entity sets (reference predicate for C08; also used to build conforming populations)
     def full_superexpr(self, n):
         """Supertype expression of n completed by ANDOR with every direct subtype it does not mention."""
